@@ -165,7 +165,7 @@ def _plan(tier):
 
 def run(rep: Report):
     tier = rep.tier
-    opts = {"prove_timeout_ms": 10000, "fork_timeout_ms": 2000, "seed": rep.seed, "scenario_wall_s": 240 if tier == "quick" else 1200}
+    opts = {"prove_timeout_ms": 10000, "fork_timeout_ms": 2000, "seed": rep.seed, "scenario_wall_s": 900 if tier == "quick" else 1200}
     run_plan(rep, _plan(tier), SCENARIOS, opts)
     rep.bounds = {"atoms before the trial": "2 (quick) / 3", "labels": "every labeling in [-1,1]^n / [-1,2]^n, diatomic species", "default_label": "None, 0, -1, 5", "tables": "e (+ a second label-bearing displacement move), e*2, e+e", "trials": "1 (inductive step); 2-trial histories with any first outcome"}
     rep.assumptions = ["a particle = the atoms sharing one non-negative label in that move", "atoms carry ghost identities in `tags` (template atoms have tag 0)", "composite exchange tables use a coin criteria (the shipped criteria has no formula for |delta|>1)"]
